@@ -29,6 +29,7 @@ MAPPINGS = {
     'float_str': {0: 2.5, 2: 'a b'},
     'empty': {},
     'zeros': {0: 0, 1: 0.0, 3: 7},     # falsy values are values, only None entries are dropped
+    'bigints': {0: 2 ** 53 + 1, 2: -(2 ** 62) - 3},    # integers that no double holds exactly
 }
 FIELDS = ['group', 'q']
 
